@@ -124,11 +124,39 @@ class ExprMixin:
         raise Unsupported(f"constant {v!r}")
 
     def ev_Tuple(self, e, st):
-        items = [self.eval(x, st) for x in e.elts]
+        items = []
+        for x in e.elts:
+            if isinstance(x, ast.Starred):
+                sv = self.eval(x.value, st)
+                if sv.ty.name != "Tuple":
+                    raise Unsupported("starred element of unknown length in a tuple display")
+                items.extend(sv.t)
+            else:
+                items.append(self.eval(x, st))
         return Val(TupleT([i.ty for i in items]), items)
 
     def ev_JoinedStr(self, e, st):
-        return Val(STR, fresh("fstr", S))
+        """f-string: exact when every piece is a constant or a plain `{string value}`; any other piece (conversions, format
+        specs, non-strings) makes the whole text an unknown string - f-strings here are messages, except where SQL is built."""
+        parts = []
+        for v in e.values:
+            if isinstance(v, ast.Constant) and isinstance(v.value, str):
+                parts.append(z3.StringVal(v.value))
+            elif isinstance(v, ast.FormattedValue) and v.conversion == -1 and v.format_spec is None:
+                try:
+                    sub = st.copy()
+                    sub.spec = True
+                    val = self.eval(v.value, sub)
+                except Unsupported:
+                    return Val(STR, fresh("fstr", S))
+                if val.ty != STR:
+                    return Val(STR, fresh("fstr", S))
+                parts.append(val.t)
+            else:
+                return Val(STR, fresh("fstr", S))
+        if not parts:
+            return Val(STR, z3.StringVal(""))
+        return Val(STR, z3.simplify(z3.Concat(*parts)) if len(parts) > 1 else parts[0])
 
     def ev_Lambda(self, e, st):
         return Val(FN, ("lambda", e, st.env, st.frame))
@@ -246,6 +274,8 @@ class ExprMixin:
     def obj_truth(self, v, st):
         cd = CLASSDEFS.get(v.ty.args[0])
         if cd and cd.get("record"):
+            if not cd.get("partial") and not self.under_construction(v, st) and cd["fields"]:
+                return z3.BoolVal(True)       # record invariant: a constructed record has all of its keys (a non-empty dict)
             return z3.Or(*[st.read(f"{v.ty.args[0]}.{f}!has", B, v.t) for f in cd["fields"]])
         return z3.BoolVal(True)
 
